@@ -190,6 +190,37 @@ func (a *EpochBitmapAllocator) Release(ctx context.Context, subscriberID string)
 	return nil
 }
 
+// SetAllocation records that subscriberID holds ip (replay of a stored or
+// remotely announced lease). The lease is renewed at the current epoch. It fails
+// if ip is not a usable address of the pool or is held by another subscriber;
+// an address the subscriber held before is freed.
+func (a *EpochBitmapAllocator) SetAllocation(subscriberID string, ip net.IP) error {
+	a.mu.Lock()
+	defer a.mu.Unlock()
+
+	idx, err := a.ipToIndex(ip)
+	if err != nil {
+		return err
+	}
+	if idx == 0 || idx >= a.totalIPs-1 {
+		return fmt.Errorf("address %s is not allocatable", ip)
+	}
+	if owner, held := a.ipToSubscriber[idx]; held && owner != subscriberID {
+		return fmt.Errorf("%w: %s is held by %s", ErrConflict, ip, owner)
+	}
+	if old, exists := a.subscribers[subscriberID]; exists && old != idx {
+		delete(a.ipToSubscriber, old)
+		if old < a.nextFreeHint {
+			a.nextFreeHint = old
+		}
+	}
+
+	a.setGeneration(idx, a.currentGeneration())
+	a.subscribers[subscriberID] = idx
+	a.ipToSubscriber[idx] = subscriberID
+	return nil
+}
+
 // Lookup returns the IP allocated to a subscriber, or nil if not found.
 func (a *EpochBitmapAllocator) Lookup(subscriberID string) net.IP {
 	a.mu.RLock()
